@@ -20,6 +20,9 @@
 // of valid lines (FIFO sentinel barrier), and Table.Bad().Get(1h) must hold, for
 // every name that had a rejection, the text of the LAST rejected line with that
 // name and a non-empty reason (bounded retries: the report is asynchronous).
+//
+// A last scenario (load.go) has 8-16 goroutines reject lines of their own names concurrently while a viewer reads
+// the report; in the thorough tier the second wave is larger than the queue in front of the report.
 package main
 
 import (
@@ -562,6 +565,35 @@ func main() {
 		res.Count("tables", 1)
 	}
 
+	// rejections under load (load.go): after the tables above - the counters are process-global
+	var ld loadStats
+	loadRan := 0
+	for _, lc := range loadCases() {
+		if replayCombo >= 0 && (replayCombo != loadComboIdx || lc.Idx != replayBatch) {
+			continue
+		}
+		if replayCombo < 0 && !mon.Mine(loadSlots[lc.Idx%len(loadSlots)]) {
+			continue
+		}
+		tPhase := time.Now()
+		st := runLoadCase(res, lc)
+		res.Count("ms_load_cases", int(time.Since(tPhase)/time.Millisecond))
+		ld.lines += st.lines
+		ld.rejected += st.rejected
+		ld.valid += st.valid
+		ld.names += st.names
+		ld.probes += st.probes
+		ld.looks += st.looks
+		loadRan++
+	}
+	res.Count("load_cases", loadRan)
+	res.Count("load_lines_dispatched", ld.lines)
+	res.Count("load_lines_rejected", ld.rejected)
+	res.Count("load_lines_valid", ld.valid)
+	res.Count("load_names_with_a_rejection", ld.names)
+	res.Count("load_probes", ld.probes)
+	res.Count("load_report_looks", ld.looks)
+
 	res.Count("ms_dispatch_and_oracles", int(tLoop/time.Millisecond))
 	res.Count("ms_aggregation_barriers", int(tAgg/time.Millisecond))
 	res.Count("ms_bad_report_checks", int(tBad/time.Millisecond))
@@ -590,6 +622,12 @@ func main() {
 	res.Floor("lines_valid", nValid, wantLines/10)
 	res.Floor("bad_report_names_checked", nBadChecked, wantLines/20)
 	res.Floor("doc_oracle_confident_verdicts", nDocSure, wantLines/4)
+	wantLoad := 0
+	for _, lc := range loadCases() {
+		wantLoad += lc.Fill + lc.Burst
+	}
+	res.Floor("load_lines_dispatched", ld.lines, wantLoad)
+	res.Floor("load_lines_rejected", ld.rejected, wantLoad/2)
 	res.Write()
 }
 
